@@ -87,7 +87,7 @@ def strat():
             for i in range(draw(st.integers(2, 10))):
                 regs.append(box(draw(st.integers(0, 3000)), draw(st.integers(0, 3000)), draw(st.integers(1, 1200)), draw(st.integers(1, 900))))
         regs = regs[:10] if kind != "newspaper" else regs[:60]
-        slant = draw(st.sampled_from([0.0, 0.0, 0.01, -0.03, 0.08]))
+        slant = draw(st.sampled_from([0.0, 0.0, 0.01, -0.03, 0.08, 0.0006, -0.0003, 0.002]))
         use_float = draw(st.booleans())
         out = []
         for k, poly in enumerate(regs):
